@@ -19,6 +19,10 @@ def register(E):
             if a.v != b.v: return False
             return conj([eq_val(e, x, y) for x, y in zip(a.f, b.f)])
         if isinstance(a, Agg): return conj([eq_val(e, x, y) for x, y in zip(a.f, b.f)])
+        if isinstance(a, Str) or isinstance(b, Str) or (isinstance(a, Vec) and a.ty in ('String', 'BString')):
+            ba = a.b if isinstance(a, Str) else (a.l if isinstance(a, Vec) else a.items()); bb = b.b if isinstance(b, Str) else (b.l if isinstance(b, Vec) else b.items())
+            if len(ba) != len(bb): return False
+            return conj([(x == y) for x, y in zip(ba, bb) if not (isinstance(x, int) and isinstance(y, int) and x == y)])
         if isinstance(a, (Vec, SliceRef)):
             la = a.l if isinstance(a, Vec) else a.items(); lb = b.l if isinstance(b, Vec) else b.items()
             if len(la) != len(lb): return False
@@ -43,7 +47,8 @@ def register(E):
             f = e._find_impl('clone', 'Clone', ty, 1)
             if f is not None: return e.call_mir(f, [Ref([v], 0)])
         if isinstance(v, Enum): return Enum(v.v, [clone_val(e, x) if not isinstance(x, Ref) else x for x in v.f], v.ty)
-        if isinstance(v, Agg): return Agg([clone_val(e, x) if not isinstance(x, Ref) else x for x in v.f], v.ty)
+        if isinstance(v, Agg):
+            a = Agg([clone_val(e, x) if not isinstance(x, Ref) else x for x in v.f], v.ty); a.env = v.env; return a
         if isinstance(v, Vec): return Vec([clone_val(e, x) if not isinstance(x, Ref) else x for x in v.l], v.ty)
         return v
     E.clone_val = lambda v: clone_val(E, v)
@@ -164,7 +169,18 @@ def register(E):
         return Ref(l, off + i)
     @R(r'as (std::ops::)?Index(Mut)?<(std::ops::)?Range(From|To)?<usize>>>::index(_mut)?$|as (std::ops::)?Index(Mut)?<(std::ops::)?RangeFull>>::index(_mut)?$')
     def _(e, c, a):
-        v, r = as_slice(deref(a[0])), a[1]
+        v0 = deref(a[0]); r = a[1]
+        if isinstance(v0, Str) or (isinstance(v0, Vec) and v0.ty in ('String', 'BString')):
+            b = v0.b if isinstance(v0, Str) else v0.l
+            lo, hi = 0, len(b)
+            if 'RangeFrom' in c: lo = r.f[0]
+            elif 'RangeToInclusive' in c: hi = r.f[0] + 1
+            elif 'RangeTo' in c: hi = r.f[0]
+            elif 'RangeFull' not in c: lo, hi = r.f[0], r.f[1]
+            if not (isinstance(lo, int) and isinstance(hi, int)): raise EngineError('symbolic str slice bounds')
+            if lo > hi or hi > len(b): raise Panic('str slice index out of range')
+            return Ref([Str(b[lo:hi])], 0)
+        v = as_slice(v0)
         lo, hi = 0, len(v)
         if 'RangeFrom' in c: lo = r.f[0]
         elif 'RangeTo' in c: hi = r.f[0]
@@ -228,7 +244,17 @@ def register(E):
     @R(r'^(smallvec::)?SmallVec::<.*>::len$|^(std::vec::)?Vec::<.*>::len$|^core::slice::<impl \[.*\]>::len$')
     def _(e, c, a): v = deref(a[0]); return len(v.l) if isinstance(v, Vec) else len(v)
     @R(r'^(SmallVec|Vec)::<.*>::(new|with_capacity)$|as Default>::default$')
-    def _(e, c, a): return Vec([], 'SmallVec' if 'SmallVec' in c else 'Vec')
+    def _(e, c, a):
+        if c.endswith('default'):
+            ty = c[1:].split(' as Default')[0]
+            if ty.startswith(('Vec<', 'std::vec::Vec<', 'SmallVec<', 'smallvec::SmallVec<')): return Vec([], 'SmallVec' if 'SmallVec' in ty else 'Vec')
+            if ty.startswith(('String', 'std::string::String')): return Vec([], 'String')
+            if ty.startswith(('Option<', 'std::option::Option<')): return NONE()
+            if ty in ('usize', 'u8', 'u32', 'u64', 'i32', 'i64', 'isize'): return 0
+            if ty == 'bool': return False
+            if ty.startswith(('HashSet<', 'std::collections::HashSet<')): return Vec([], 'HashSet')
+            raise EngineError('no Default model for ' + ty)
+        return Vec([], 'SmallVec' if 'SmallVec' in c else 'Vec')
     @R(r'^(SmallVec|Vec)::<.*>::push$')
     def _(e, c, a): deref(a[0]).l.append(a[1]); return UNIT
     @R(r'^(SmallVec|Vec)::<.*>::pop$')
